@@ -572,7 +572,7 @@ struct E1 : Engine {
 			v["cache"]["backend"] = "thread_shared"; v["cache"]["limit"] = 16;
 			v["localization"]["locales"][0] = "C"; v["localization"]["backend"] = "std"; v["logging"]["stderr"] = false; v["logging"]["level"] = "error";
 			v["security"]["content_length_limit"] = 2048; v["security"]["multipart_form_data_limit"] = 2048; v["security"]["display_error_message"] = false;
-			upload_dir = runner::g_scratch + "/up" + std::to_string(getpid()); mkdir(upload_dir.c_str(),0700);
+			{ char pb[16]; snprintf(pb,sizeof(pb),"%07d",(int)getpid()); upload_dir = runner::g_scratch + "/up" + pb; }   /* fixed length, see runner.h */ mkdir(upload_dir.c_str(),0700);
 			v["security"]["uploads_path"] = upload_dir;
 			v["security"]["content_length_limit"] = (int)std::max<int64_t>(1,std::min<int64_t>(cfg.geti("content_limit_kb",2048),4096)); v["security"]["multipart_form_data_limit"] = (int)std::max<int64_t>(1,std::min<int64_t>(cfg.geti("multipart_limit_kb",2048),4096)); v["security"]["file_in_memory_limit"] = (int)std::max<int64_t>(0,std::min<int64_t>(cfg.geti("file_in_memory_limit",128*1024),1<<22));
 			std::unique_ptr<cppcms::service> srv;
